@@ -174,7 +174,11 @@ def dist_obs(case, m):
             if "fam" not in case["dists"][t]:
                 continue
             d = leaf.get_distribution(t)
-            per.append([t, [[k, float(v)] for k, v in d.get_params(as_dict=True).items()], [float(x) for x in d.pmf]])
+            try:
+                pmf = [float(x) for x in d.pmf]
+            except Exception as e:  # noqa: BLE001
+                pmf = [f"pmf raised {impl.err_enum(e)}"]
+            per.append([t, [[k, float(v)] for k, v in d.get_params(as_dict=True).items()], pmf])
         out.append([name, per])
     return out
 
@@ -311,7 +315,8 @@ def impl_eval(case):
                     same = (len(bt) == len(at) and all(
                         [kk for kk, _ in b[1]] == [kk for kk, _ in a[1]]
                         and all(c10.close(av, bv) for (_, av), (_, bv) in zip(a[1], b[1]))
-                        and len(a[2]) == len(b[2]) and all(c10.close(av, bv) for av, bv in zip(a[2], b[2]))
+                        and len(a[2]) == len(b[2]) and all(not isinstance(av, str) and not isinstance(bv, str)
+                                                           and c10.close(av, bv) for av, bv in zip(a[2], b[2]))
                         for a, b in zip(at, bt)))
                     if not same:
                         fail("f", k, kind, leaf=leaf, t_stage=t, actual=at, expected=bt, bad=bad)
@@ -621,7 +626,7 @@ def gen_case(rng, cls=None, cfg=None, base=None):
 def exhaustive_cases(base):
     """fixed 2-LNL graph, every class / configuration: [valid, invalid, valid] with the invalid value at every
     position x every invalid kind (5 for spread-like parameters, 6 for distribution parameters), list form;
-    the same in dict form (all names, reversed order) for every position x {neg, nan}"""
+    the same in dict form (all names, reversed order) for every position x {neg}"""
     out = []
     g = {"base": base, "entries": copy.deepcopy(FIXED_GRAPH)}
     pat = {"t": 1, "find": {"CT": {"ipsi": {"II": True, "III": False}, "contra": {"II": False, "III": None}}},
@@ -659,7 +664,7 @@ def exhaustive_cases(base):
                     x = 101.0
                 else:
                     x = fixed[kind]
-                forms = ["list"] + (["dict"] if kind in ("neg", "nan") else [])
+                forms = ["list"] + (["dict"] if kind == "neg" else [])
                 for form in forms:
                     bad = copy.deepcopy(mid)
                     bad[i][1] = x
@@ -691,6 +696,11 @@ def _drop_names(case, drop):
 
 
 def candidates(case):
+    return candidates_struct(case) + candidates_values(case)
+
+
+def candidates_struct(case):
+    """fewer evaluations, no initial state, one patient, fewer distributions, no surplus"""
     out = []
     steps = case["steps"]
     if len(steps) > 1:
@@ -702,12 +712,17 @@ def candidates(case):
         c = copy.deepcopy(case)
         c["init"] = None
         out.append(c)
+    if case.get("named") and list(case["named"]) == get_names(case):
+        c = copy.deepcopy(case)
+        c["named"] = None
+        out.append(c)
     if len(case["patients"]) > 1:
-        for p in case["patients"][:2]:
+        staged = [t for st in case["dists"] for t in ([0, 1, 2] if st == "early" else [3, 4])]
+        for p in sorted(case["patients"], key=lambda p: p["t"] not in staged)[:2]:
             c = copy.deepcopy(case)
             c["patients"] = [copy.deepcopy(p)]
             out.append(c)
-    if len(case["dists"]) > 0:
+    if len(case["dists"]) > 1:                     # keep one: without any distribution the likelihood is constant
         for t in list(case["dists"]):
             c = copy.deepcopy(case)
             d = c["dists"].pop(t)
@@ -721,6 +736,13 @@ def candidates(case):
             c = copy.deepcopy(case)
             c["steps"][k]["surplus"] = []
             out.append(c)
+    return out
+
+
+def candidates_values(case):
+    """valid values to 1/2, dict proposals without the items that do not matter"""
+    out = []
+    steps = case["steps"]
     # all valid unit values of one step to 1/2 at once, then one by one
     for k, st in enumerate(steps):
         idx = [i for i, (nm, x) in enumerate(st["items"]) if domain(case, nm) == "unit" and nm in names_of(case)
@@ -760,7 +782,7 @@ def call_text(case) -> str:
         if isinstance(g, list):
             g = "[" + ", ".join(repr(x) for x in g) + "]"
         return f"likelihood(given_params={g}" + ("" if st["log"] else ", log=False") + ")"
-    parts = [f"m = {case['cls']}(graph={gen.graph_dict(case['graph'])}, {case['cfg']}, max_time={case['max_time']}); "
+    parts = [f"m = {case['cls']}.{'trinary' if case['graph']['base'] == 3 else 'binary'}(graph={gen.graph_dict(case['graph'])}, {case['cfg']}, max_time={case['max_time']}); "
              f"distributions {case['dists']}; modality {case['mods']}; {len(case['patients'])} patient(s)"]
     if case.get("init"):
         parts.append(f"m.set_params(**{case['init']})")
@@ -784,12 +806,12 @@ def report(ctx, case, f):
     if sig0.get("call") == "set_params":           # known finding: no shrinking needed
         ctx.violation(WHAT[check], {"case": case, "failure": f, "call": call_text(case)}, sig0)
         return
-    target = (check, f.get("observable") if check == "e" else None)
-
     def still(cs):
         res = failing(ctx, cs, "shrink", with_coq=(check == "e"))
         return [any(x["check"] == check for x in fs) for fs in res]
-    small = shrink(ctx, case, candidates, still, max_rounds=40, budget_s=30.0, max_cands=40)
+    small = shrink(ctx, case, candidates_struct, still, max_rounds=30, budget_s=20.0, max_cands=16)
+    small = shrink(ctx, small, candidates_values, still, max_rounds=40, budget_s=15.0, max_cands=12)
+    small = shrink(ctx, small, candidates_struct, still, max_rounds=10, budget_s=5.0, max_cands=16)
     fs = [x for x in failing(ctx, [small], "final", with_coq=(check == "e"))[0] if x["check"] == check]
     if not fs:
         small, fs = case, [f]
@@ -802,7 +824,6 @@ def report(ctx, case, f):
                    "broken": ("correspondence Safe.out_run vs /repo (C12 theorems are about this model)" if check == "e"
                               else "C12 relation evaluated on /repo")},
                   signature(small, f2))
-    del target
 
 
 # --------------------------------------------------------------------------
@@ -822,7 +843,7 @@ def run(ctx: Ctx, a_ok: bool):
                 "subset / short list / surplus list / unknown key / None, in list and dict form; non-trivial iff the "
                 "interleaving contains at least one rejected and one valid proposal and some value strictly inside (0,1)")
     rng = ctx.rng
-    n = 200 if ctx.tier == "quick" else 1500
+    n = 200 if ctx.tier == "quick" else 1000
     cfgs = all_configs()
     cases = []
     for i in range(n):
@@ -840,7 +861,7 @@ def run(ctx: Ctx, a_ok: bool):
             f"all {len(cfgs)} class/configurations, distributions early=fam0(p), late=fam1(a,b), 2 patients; the invalid "
             "value at every position of get_params() x every invalid kind (-1/16, 17/16 (fam1: 101), NaN, +inf, -inf; "
             "distribution parameters additionally the family-specific rejection p=1.5 / a=101 / b=0) in list form, and "
-            "every position x {-1/16, NaN} in dict form")
+            "every position x {-1/16} in dict form (all names, reversed order)")
     for c in cases:
         ctx.count(c, nontrivial(c), f"{c['cls']}-{c['kind']}")
         ctx.bump("base3" if c["graph"]["base"] == 3 else "base2")
@@ -890,6 +911,7 @@ def replay(ctx: Ctx, path: str) -> int:
     case = data["case"]
     fs = failing(ctx, [case], "replay")[0]
     want = (data.get("signature") or {}).get("observable")
+    fs = [f for f in fs if signature(case, f).get("call") != "set_params"]      # the HPV known finding is not a reproduction
     hit = [f for f in fs if f["check"] == want] or fs
     if hit:
         f = hit[0]
